@@ -134,3 +134,16 @@ pub fn occurrence_contract_monitor(
 pub fn lz13_header_stub(_bytes: &[u8]) -> Result<usize, mila::CompressionError> {
     Ok(0)
 }
+
+/// Plain-loop model of `core::slice::memchr::memchr` (the real one scans word-wise after aligning
+/// the pointer, which CBMC cannot resolve for a pointer of unknown alignment).
+pub fn memchr_model(x: u8, text: &[u8]) -> Option<usize> {
+    let mut i = 0;
+    while i < text.len() {
+        if text[i] == x {
+            return Some(i);
+        }
+        i += 1;
+    }
+    None
+}
